@@ -435,3 +435,7 @@ v('c11-try-from-iter-witness', ['C11'], CS, "                if c.start <= comp_
 import variants_loops
 for _d in variants_loops.L:
     V.append(dict(_d))
+
+v('prefix-C15-exact-panics', ['C15'], LR, """                // the product may exceed u32::MAX: it is then larger than a - 1
+                other.start().saturating_mul(self.end() - self.start())
+                    >= self.start().saturating_sub(1)""", "                mul32(other.start(), self.end() - self.start()) >= self.start().saturating_sub(1)", 'C15.R6/right_mul_is_exact/panic')
